@@ -332,7 +332,7 @@ func TestVerifC45(t *testing.T) {
 	rec := kit.Start(t, "C45", "dump")
 	defer rec.Finish()
 	env := rec.Env
-	n := env.Pick(120, 400)
+	n := env.Pick(120, 300)
 	// one repository per shard: creating a repository (zstd encoder tables) is very expensive under the
 	// race detector; all trees of the shard go into it (blobs are shared between cases, as in real use)
 	be := kit.NewVBackend(8, true)
